@@ -239,7 +239,15 @@ impl Network for AdvNet {
             let first = packet.payload.first().copied().unwrap_or(0);
             let (from, to) = if dir == "c2s" { ("c", "s") } else { ("s", "c") };
             let (dcid, scid) = crate::common::datagram_ids(&packet.payload, from, to, true);
-            emit(json!({"ev": "dg", "dir": dir, "idx": idx, "len": len, "act": act, "first": first, "dcid": dcid, "scid": scid, "src": src.to_string(), "dst": dst.to_string(), "hash": fnv(&packet.payload)}));
+            let (dcid_raw, scid_raw): (Vec<u8>, Vec<u8>) = {
+                let p = &packet.payload;
+                if p.len() > 7 && p[0] & 0x80 != 0 && p.len() >= 7 + p[5] as usize && p.len() >= 7 + p[5] as usize + p[6 + p[5] as usize] as usize {
+                    let dl = p[5] as usize;
+                    let sl = p[6 + dl] as usize;
+                    (p[6..6 + dl].to_vec(), p[7 + dl..7 + dl + sl].to_vec())
+                } else { (vec![], vec![]) }
+            };
+            emit(json!({"ev": "dg", "dir": dir, "idx": idx, "len": len, "act": act, "first": first, "dcid": dcid, "scid": scid, "dcid_raw": dcid_raw, "scid_raw": scid_raw, "src": src.to_string(), "dst": dst.to_string(), "hash": fnv(&packet.payload)}));
             let path_delay = {
                 let ca = self.client_addrs.lock().unwrap();
                 let client_side = if dir == "c2s" { src } else { dst };
